@@ -170,6 +170,12 @@ func genNode(rng *rand.Rand) ([]byte, string) {
 		case 0, 1:
 			pf, sty, kind = 1, 1, "hd-mbr"
 			copy(sig[4:], make([]byte, 12))
+			switch rng.Intn(4) {
+			case 0: // signatures with leading zero digits
+				sig[3], sig[2] = 0, byte(rng.Intn(16))
+			case 1:
+				copy(sig[:4], []byte{0, 0, 0, 0})
+			}
 		case 2:
 			pf, sty, kind = byte(rng.Intn(256)), byte(rng.Intn(256)), "hd-other"
 		case 3:
